@@ -5,6 +5,7 @@
      done      with outcome recursion / busy / timeout, or more steps than StepBudget
      alive     FALSE although no injected unit was a valid disconnect of the link
      reopen    FALSE (the ordinary procedure to open the channel again failed)
+     probe     while a transaction the peer started (inject with txn = TRUE) has not been abandoned
      probe_ok  FALSE (reference request unanswered or answered wrongly)
    A batch file holds many traces; tid picks one.  Every record has all fields.          *)
 EXTENDS Robust, Json, IOUtils, TLC, TLCExt
@@ -17,10 +18,11 @@ tvars == <<vars, tid, l>>
 T  == Traces[tid]
 Ev == T[l]
 
-Act == \/ Ev.e = "inject"   /\ Ev.ch = ch /\ Ev.len >= 0 /\ Inject(Ev.cls, Ev.disc)
+Act == \/ Ev.e = "inject"   /\ Ev.ch = ch /\ Ev.len >= 0 /\ Inject(Ev.cls, Ev.disc, Ev.txn)
        \/ Ev.e = "done"     /\ Done(Ev.outcome, Ev.steps)
        \/ Ev.e = "alive"    /\ Alive(Ev.conn, Ev.open)
        \/ Ev.e = "reopen"   /\ Reopen(Ev.ok)
+       \/ Ev.e = "abandon"  /\ Abandon
        \/ Ev.e = "probe"    /\ Ev.ch = ch /\ Probe
        \/ Ev.e = "probe_ok" /\ ProbeReply(Ev.ok)
 
@@ -37,7 +39,7 @@ Done_ == /\ l = Len(T) + 1
 Stuck == /\ \/ l <= Len(T) /\ ~ENABLED Step
             \/ l = Len(T) + 1 /\ phase # "end"
          /\ PrintT(<<"REJECT", tid, l, IF l <= Len(T) THEN Ev ELSE [e |-> "incomplete"],
-                     [phase |-> phase, hist |-> hist, cur |-> cur, connUp |-> connUp, chanUp |-> chanUp, discs |-> discs]>>)
+                     [phase |-> phase, hist |-> hist, cur |-> cur, connUp |-> connUp, chanUp |-> chanUp, discs |-> discs, txn |-> txn]>>)
          /\ UNCHANGED tvars
 
 TraceInit == /\ tid \in 1..Len(Traces)
@@ -45,7 +47,7 @@ TraceInit == /\ tid \in 1..Len(Traces)
              /\ ch = Traces[tid][1].ch
              /\ ch \in Channels
              /\ hist = <<>> /\ phase = "idle" /\ cur = [cls |-> "", disc |-> "none"]
-             /\ connUp = TRUE /\ chanUp = TRUE /\ mid = FALSE /\ lost = FALSE /\ discs = {}
+             /\ connUp = TRUE /\ chanUp = TRUE /\ mid = FALSE /\ lost = FALSE /\ discs = {} /\ txn = FALSE
 TraceNext == Step \/ Done_ \/ Stuck
 TraceSpec == TraceInit /\ [][TraceNext]_tvars
 =============================================================================
